@@ -9,6 +9,7 @@
 #include "stir/ProjDataInfoCylindricalNoArcCorr.h"
 #include "stir/ProjDataInfoCylindricalArcCorr.h"
 #include "stir/VoxelsOnCartesianGrid.h"
+#include "stir/Bin.h"
 #include "stir/IndexRange3D.h"
 #include "stir/Verbosity.h"
 #include "stir/shared_ptr.h"
@@ -235,7 +236,14 @@ gen_pdi(Src& s, const stir::Scanner& sc, const PdiOpts& o)
           spans.push_back(k);
       span = s.pick(spans);
     }
-  const int min_delta = (span - 1) / 2;
+  // even spans: segment 0 covers -span/2..span/2; with max_delta < span/2 it would be clamped asymmetrically
+  // (legal for construct_proj_data_info but rejected by the projector symmetries: "segment 0 ... direct planes")
+  int min_delta = span / 2;
+  if (min_delta > rings - 1)
+    {
+      span = 1;
+      min_delta = 0;
+    }
   const int max_delta = int(s.range(std::min(min_delta, rings - 1), rings - 1));
   j["span"] = span;
   j["max_delta"] = std::max(max_delta, min_delta);
@@ -340,7 +348,9 @@ inline stir::shared_ptr<stir::VoxelsOnCartesianGrid<float>>
 make_image(const json& j, const stir::ProjDataInfo& pdi, int max_z = 15)
 {
   using namespace stir;
-  const float bin = pdi.get_scanner_ptr()->get_default_bin_size();
+  // xy voxel sizes are relative to the tangential sampling of THIS data at the centre (for non-arc-corrected
+  // data that is ring radius x angular increment, which has nothing to do with the scanner's default bin size)
+  const float bin = pdi.get_sampling_in_s(Bin(0, 0, 0, 0));
   const float ring_spacing = pdi.get_scanner_ptr()->get_ring_spacing();
   // axial sampling of segment 0
   float ax_sampling = ring_spacing;
